@@ -174,12 +174,22 @@ def run_mem(case):
                 # serialise read-vs-write on one memory
                 kinds = set(i['op'] for i in issued if i['mem'] == mid and not i.get('settled'))
                 overlapping = False
+                undecided_overlap = False
                 if op['op'] == 'read' and case.get('overlap_reads') and 'read' in kinds and 'write' not in kinds:
                     # a read issued while another read of the same memory is still in flight: it has to be refused (returns
                     # False, nothing sent for it) and the one in flight completes normally
                     overlapping = len([n for n in notes if n[1] == mid and n[0].startswith('read')]) < len(
                         [i for i in issued if i['mem'] == mid and i['op'] == 'read' and i['accepted']])
+                    # ... and is known to be in flight only while its first answer cannot have arrived yet (afterwards the library
+                    # may have finished it although the notification has not run yet)
+                    fastest = min(pol['delays']) if pol['delays'] else 0.001
+                    last_read = [i for i in issued if i['mem'] == mid and i['op'] == 'read' and i['accepted']][-1:]
+                    if overlapping and not (last_read and s.now - last_read[0].get('t', -1e9) < fastest - 1e-9):
+                        overlapping = False
+                        undecided_overlap = True
                 if overlapping:
+                    pass
+                elif undecided_overlap:
                     pass
                 elif (op['op'] == 'read' and kinds) or (op['op'] == 'write' and 'read' in kinds):
                     if case.get('asap'):
@@ -198,6 +208,8 @@ def run_mem(case):
                     break
                 late = bool(env.world.fault_fired)    # the link error has been raised already and is being processed: no claim about this request
                 if op['op'] == 'read':
+                    t_call = s.now
+                    snap_ = dev.mem.mems[mid].peek(addr, ln)
                     acc = cf.mem.read(m, addr, ln)
                     if overlapping:
                         out.feat('overlapping-read')
@@ -207,7 +219,7 @@ def run_mem(case):
                             s.sleep(op['gap'])
                         continue
                     late = late or bool(env.world.fault_fired)
-                    issued.append({'op': 'read', 'mem': mid, 'addr': addr, 'len': ln, 'accepted': bool(acc), 'snapshot': dev.mem.mems[mid].peek(addr, ln),
+                    issued.append({'op': 'read', 'mem': mid, 'addr': addr, 'len': ln, 'accepted': bool(acc), 'snapshot': snap_, 't': t_call,
                                    'maybe_superseded': late})
                 else:
                     data = _data(ln, op['seed'])
@@ -215,6 +227,9 @@ def run_mem(case):
                         q = [i for i in issued if i['op'] == 'write' and i['mem'] == mid and not i.get('settled')]
                         for i in q[1:]:
                             i['maybe_superseded'] = True
+                    # the record is made before the call: its completion notification may run (and chain another write) before the call returns
+                    rec_ = {'op': 'write', 'mem': mid, 'addr': addr, 'len': ln, 'data': data, 'accepted': True, 'maybe_superseded': late}
+                    issued.append(rec_)
                     if op.get('progress'):
                         prog = []
                         progress_logs.append((mid, addr, ln, prog))
@@ -223,8 +238,7 @@ def run_mem(case):
                         cf.mem.write(m, addr, data, flush_queue=op['flush'])
                     # a call that was still in progress when the link error was raised is like one made after it: the library
                     # had not registered the request when it failed everything that was pending
-                    late = late or bool(env.world.fault_fired)
-                    issued.append({'op': 'write', 'mem': mid, 'addr': addr, 'len': ln, 'data': data, 'accepted': True, 'maybe_superseded': late})
+                    rec_['maybe_superseded'] = late or bool(env.world.fault_fired)
                 if ln > 25 or (op['op'] == 'read' and ln > 20):
                     multi = True
                 if op['gap']:
